@@ -74,6 +74,7 @@ def make_scenarios(ctx, count, per):
         if i % 3 == 1:
             s.add("OPT sloppy=1")         # text getters that fill their whole window and report the string's length
         tuples = []
+        worn = 0
         for _ in range(per):
             t = rand_tuple(rng, idx)
             t["failrc"] = failrc
@@ -84,9 +85,18 @@ def make_scenarios(ctx, count, per):
                 pass
             s.add("SET 0 " + H.kvs(kw))
             s.add("GSET hostname=%s fail=%d conv=%d" % (t["hostname"].hex() or "-", t["gfail"], t["gconv"]))
+            if i % 8 == 5 and tuples and rng.random() < 0.5:
+                # the attributes have just changed; before the next Discover asks for them the interface sees a long run of
+                # frames that need none of them (N around 2^8 and 2^16: what a frame counter or a cache tag might hold)
+                N = rng.choice([254, 255, 256, 257, 65533, 65534, 65535, 65536, 65537])
+                filler = rng.choice([W.simple(W.OP_CHARGE, base["mac"], mapper, 0), W.simple(W.OP_ACK, base["mac"], mapper, 5),
+                                     W.reset(mapper, tos=rng.choice([0, 1])), W.simple(W.OP_FLAT, base["mac"], mapper, 0, tos=2)])
+                s.add("FR 0 %d %s" % (N, filler.hex()))
+                tuples.append(None)
+                worn += 1
             s.frame(0, W.discover(mapper, rng.getrandbits(16), rng.getrandbits(16), [], tos=rng.choice([0, 1])))
             tuples.append(t)
-        s.meta = dict(tuples=tuples)
+        s.meta = dict(tuples=tuples, worn=worn)
         scns.append(s)
     return scns
 
@@ -101,6 +111,9 @@ def monitor(scn, sobj, rep, sf, ck):
         if idx >= len(tuples) or inp.out is None:
             break
         t = tuples[idx]
+        if t is None:
+            rep.count("long_runs_of_frames_between_attribute_change_and_discover")
+            continue
         sends = inp.sends()
         rep.evaluations += 1
         if len(sends) != 1 or not sends[0][3] or len(sends[0][3]) < 47 or sends[0][3][17] != W.OP_HELLO:
@@ -190,4 +203,5 @@ def run(ctx):
     rep.need("tuples_with_failing_getters", c.get("tuples_with_failing_getters", 0), 500)
     rep.need("failed_getter_positive_code_judged", c.get("failed_getter_positive_code_judged", 0), 300)
     rep.need("both name conventions", min(c.get("conv:0", 0), c.get("conv:1", 0)), 1000)
+    rep.need("long_runs_of_frames_between_attribute_change_and_discover", c.get("long_runs_of_frames_between_attribute_change_and_discover", 0), 50)
     c04_linux.run(ctx)
